@@ -3219,6 +3219,18 @@ connectionHandlingThread(void* parameter)
         }
     }
 
+    /* the connection is over: it must not be taken for a started one (and reported deactivated by a switch-over in its
+     * redundancy group) between the closed event and the moment the listening thread releases its slot */
+#if (CONFIG_USE_SEMAPHORES == 1)
+    Semaphore_wait(self->stateLock);
+#endif /* (CONFIG_USE_SEMAPHORES == 1) */
+
+    self->state = M_CON_STATE_STOPPED;
+
+#if (CONFIG_USE_SEMAPHORES == 1)
+    Semaphore_post(self->stateLock);
+#endif /* (CONFIG_USE_SEMAPHORES == 1) */
+
     if (self->slave->connectionEventHandler) {
         self->slave->connectionEventHandler(self->slave->connectionEventHandlerParameter, &(self->iMasterConnection), CS104_CON_EVENT_CONNECTION_CLOSED);
     }
